@@ -63,6 +63,22 @@ Theorem C09_noncritical_silent : forall hooks orc e b s s' t r d,
 Proof. exact noncritical_silent. Qed.
 Print Assumptions C09_noncritical_silent.
 
+(* Which termination reports of a hook TASK are failures: exactly those with a non-zero exit
+   code (negative ones - killed by a signal - included) or an involuntary termination, whatever
+   the final Mesos state says.  The two tests are read from runTasksAsHooks by the translator on
+   every run (gen/Gen_HookFail.v), so this theorem fails when the source changes them. *)
+Theorem C09_task_failure_classification : forall c vol,
+  term_fails c vol = true <-> (c <> 0%Z \/ vol = false).
+Proof. exact term_fails_spec. Qed.
+Print Assumptions C09_task_failure_classification.
+
+(* ... and such a report decides the outcome of the hook task (stated for a task alone at its
+   weight; several tasks of one weight go through the collector loop of the model) *)
+Theorem C09_task_report_decides : forall h c v f,
+  run_tasks [h] [(h, TTermX c v f)] = LDone (if term_fails c v then [h] else []).
+Proof. exact single_task_report. Qed.
+Print Assumptions C09_task_report_decides.
+
 (* Clause 4.  Several critical hooks failing at one point are reported together: the error of a
    handleHooks pass carries all critical calls that failed where the pass stopped, counts them
    (calls and hook tasks), and names every call when there are at most three. *)
